@@ -107,7 +107,13 @@ func VF_C10_L1_Isolation() {
 			case strings.HasPrefix(q.subject, "get."):
 				w.mq.answer(q, []byte(`{"result":{"model":{"owner":"me"}}}`), nil)
 			case strings.HasPrefix(q.subject, "call."):
-				w.mq.answer(q, []byte(`{"result":{"ok":true}}`), nil)
+				if zzvf.Choose("call-answer", 2) == 1 {
+					// a resource response naming a {cid}-tagged resource
+					zzvf.Tag("tagged-resource-response")
+					w.mq.answer(q, []byte(`{"resource":{"rid":"test.{cid}.sess"}}`), nil)
+				} else {
+					w.mq.answer(q, []byte(`{"result":{"ok":true}}`), nil)
+				}
 			default:
 				w.mq.answer(q, []byte(`{"result":null}`), nil)
 			}
